@@ -161,6 +161,8 @@ type kvHandle struct {
 	db      *kv.DB
 	model   kvModel
 	emptied bool // the tree was emptied by RemoveTombstones in this handle
+	// family: handles made from one another by Clone share tree nodes in memory
+	family int
 }
 
 type conflictCall struct{ key, v1, v2 string }
@@ -204,6 +206,7 @@ func runKV(c KVCase, o *Obs) error {
 	allSets := map[string]map[string]bool{} // key -> "t|value" ever passed to Set
 	allTombs := map[string]map[int64]bool{} // key -> times passed to Tombstone
 	now := int64(100000)
+	families := 0
 	openHandle := func(perm []int) (*kvHandle, []string, error) {
 		names := trimAll(store.Keys(prefix+"root/current/"), prefix+"root/current/")
 		m := kvModel{}
@@ -225,7 +228,8 @@ func runKV(c KVCase, o *Obs) error {
 		for _, r := range roots {
 			pub[r] = m.clone()
 		}
-		return &kvHandle{db: db, model: m}, names, nil
+		families++
+		return &kvHandle{db: db, model: m, family: families}, names, nil
 	}
 	var hs []*kvHandle
 	defer func() {
@@ -333,6 +337,22 @@ func runKV(c KVCase, o *Obs) error {
 		h := hs[s.H]
 		where := fmt.Sprintf("step %d (%s h%d)", i, s.Op, s.H)
 		kn := keyName(s.Key)
+		if (s.Op == "set" || s.Op == "tomb" || s.Op == "purge") && c.BF < 4096 && !c.NoSteer {
+			// K4 steer: on multi-node trees the dependency creates a missing child link in place
+			// in a node that a clone shares with its origin, so a write through one of them shows
+			// in the other (confirmed with the patched dependency; witness kept). While a handle
+			// has a live relative by Clone, writes through it are left out on multi-node trees.
+			related := 0
+			for _, oh := range hs {
+				if oh.family == h.family {
+					related++
+				}
+			}
+			if related > 1 {
+				o.Exclude("K4-write-through-a-handle-with-a-live-clone-on-a-multi-node-tree")
+				continue
+			}
+		}
 		// what the other handles report as their versions must not move under a step of this one
 		rootsBefore := map[int]string{}
 		for j, oh := range hs {
@@ -390,7 +410,7 @@ func runKV(c KVCase, o *Obs) error {
 			if s.H2 != s.H {
 				o.Class("clone-replaced-a-handle")
 				hs[s.H2].db.Cancel()
-				hs[s.H2] = &kvHandle{db: cl, model: h.model.clone(), emptied: h.emptied}
+				hs[s.H2] = &kvHandle{db: cl, model: h.model.clone(), emptied: h.emptied, family: h.family}
 			} else {
 				cl.Cancel()
 			}
